@@ -143,5 +143,7 @@ def run(ck: Check):
                    "test = content hash, see seen[]"}
             run_.verd = "".join(a for _, _, a in run_.seen)
             make_oracle_c13(lambda ctx, run, f=step["f"]: f)(ck, ctx, run_)
+    from boundaries import partner_at_distances
+    partner_at_distances(ck, quick)
     return ck.finish(level="proof", rule=RULE, assumptions=[
         "reading of 'partner' fixed in DESIGN.md 4/C13: the running balance must not dip below zero"])
